@@ -132,6 +132,11 @@ def run(tier, seed):
                     continue
                 ax_, ay_, how = present(np, x, y, ncmp)
                 try:
+                    if how == "buffer":
+                        # the same two objects were used for the previous evaluation of this metric, with other contents
+                        ax_[:], ay_[:] = y, x
+                        fn(ax_, ay_)
+                        ax_[:], ay_[:] = x, y
                     code = float(fn(ax_, ay_))
                 except Exception as ex:
                     rep.violation("DISTANCES[%s]" % nm, "metric_raised_on_in_domain_vectors", nm, {"metric": nm, "x": x, "y": y, "passed_as": how, "exception": "%s: %s" % (type(ex).__name__, str(ex)[:100]), "reference": ref})
